@@ -86,5 +86,25 @@ def streams(tier, rng, P, only=None, cases=None):
         src = mml.pr(prog)
         return dict(req="run " + hx(src), src=src, show=src, sexp=mml.sexp(prog), blk=True, key=case.get("key", "") + "-shrunk")
     s1.ast_rebuild = rebuild
+    # ---- chordtie: a tie mark `&` written after a member of a chord does not take the member out of the chord: the chord laws
+    #      (same start, the chord's length and gate, pointer advanced by one length) hold as without the mark
+    def mk_ct():
+        cs = []
+        for i in range(1500 if big else 200):
+            members = [rng.choice("cdefgab") + rng.choice(["", "", "+", "4", "8", "-"]) for _ in range(rng.randrange(2, 5))]
+            marked = [m + ("&" if rng.random() < 0.5 else "") for m in members]
+            if not any(m.endswith("&") for m in marked): marked[0] += "&"
+            tail = rng.choice(["", "2", "4", "8.", "2,50", "4,,90", "1,100,70"])
+            wrap = rng.choice(["%s", "%s", "[2 %s r8]", "{%s d}4", "Sub{%s} r", "l8 q100 %s", "Slur(1) %s", "Slur(2,10) %s"])
+            a = wrap % ("'" + " ".join(marked) + "'" + tail) + " n100"; b = wrap % ("'" + " ".join(members) + "'" + tail) + " n100"
+            cs.append(dict(req="compile2 %s %s" % (hx(a), hx(b)), src=a, src2=b, show="%s   vs   %s" % (a, b), key="ct%d" % i))
+        return cs
+    def ct_judge(c, impl, m):
+        st, f = impl
+        if st != "ok": return ("violation", "chord program did not compile normally: " + st)
+        if f["bin1"] != f["bin2"]: return ("violation", "a tie mark inside a chord changed the chord: %s vs %s" % (c["src"][:100], c["src2"][:100]))
+        return None
+    s3 = Stream("chordtie", cases if (cases and only == "chordtie") else mk_ct(), lambda c, st, f: [], ct_judge,
+                lambda c, i, m: i[1].get("bin1") if i[0] == "ok" else None, "chord with tie marks vs the same chord without", timeout_case=20.0)
     sx = execstream.exec_stream(tier, rng, P, only, cases)
-    return [s for s in (s1, sx) if only in (None, s.name)]
+    return [s for s in (s1, s3, sx) if only in (None, s.name)]
